@@ -256,16 +256,16 @@ def dispatch (op : String) (a : Array String) : Option String :=
             | none => "none"
             | some (q, h, pw, n) => " ".intercalate ([q, h, pw, n].map Gen.bitsOf))
   | "spec.findop" =>
-    -- spec.findop sysAtQimin pumpAtQimin qimin qlast <n> q1 gap1 … qn gapn   (the tape of scipy's evaluations of the head gap)
+    -- spec.findop sysAtQimin pumpAtQimin qimin qlast <n> then n triples q hs hp   (the tape of scipy's evaluations of calc_system_head)
     if a.size < 5 then none else
     let n := (a[4]!).toNat!
-    if a.size != 5 + 2 * n then none else
-    let tape := (List.range n).map fun i => (a[5 + 2 * i]!, Gen.fOfBits a[6 + 2 * i]!)
-    let gap : Float → Float := fun q => match tape.find? (fun e => e.1 == Gen.bitsOf q) with
+    if a.size != 5 + 3 * n then none else
+    let tape := (List.range n).map fun i => (a[5 + 3 * i]!, Gen.fOfBits a[6 + 3 * i]!, Gen.fOfBits a[7 + 3 * i]!)
+    let heads : Float → Float × Float := fun q => match tape.find? (fun e => e.1 == Gen.bitsOf q) with
       | some e => e.2
-      | none => 0.0 / 0.0
+      | none => (0.0 / 0.0, 0.0 / 0.0)
     let f := fun i => Gen.fOfBits a[i]!
-    some (match Spec.OpPoint.findOp (α := Float) gap (f 0) (f 1) (f 2) (f 3) with
+    some (match Spec.OpPoint.findOp (α := Float) heads (f 0) (f 1) (f 2) (f 3) with
       | .flow q => "flow " ++ Gen.bitsOf q
       | .operatingPointError => "OperatingPointError")
   | _ => none
